@@ -1,6 +1,7 @@
 package world
 
 import (
+	"encoding/json"
 	"fmt"
 	"math/rand"
 )
@@ -528,4 +529,75 @@ func PermuteUnordered(w *World, r *rand.Rand) *World {
 	shufA(c.Banp.Ingress)
 	shufA(c.Banp.Egress)
 	return c
+}
+
+// Mutate returns a copy of w after 1..4 random edits (policies added or removed, a workload added or removed, a namespace
+// relabelled): the second side of a diff whose two sides are several edits apart. Universe (M, NAddr, namespaces) unchanged.
+func Mutate(w *World, r *rand.Rand, o GenOpts) *World {
+	b, err := json.Marshal(w)
+	if err != nil {
+		panic(err)
+	}
+	out := &World{}
+	if err := json.Unmarshal(b, out); err != nil {
+		panic(err)
+	}
+	out.Normalize()
+	if o.M == 0 {
+		o.M = out.M
+	}
+	if o.NAddr == 0 {
+		o.NAddr = out.NAddr
+	}
+	g := &G{R: r, O: o, W: out}
+	fresh := func(prefix string, used func(string) bool) int { // an index whose name is not taken yet
+		for i := 20; ; i++ {
+			if !used(fmt.Sprintf("%s%d", prefix, i)) {
+				return i
+			}
+		}
+	}
+	npUsed := func(n string) bool {
+		for i := range out.Netpols {
+			if out.Netpols[i].Name == n {
+				return true
+			}
+		}
+		return false
+	}
+	wlUsed := func(n string) bool {
+		for i := range out.Workloads {
+			if out.Workloads[i].Name == n {
+				return true
+			}
+		}
+		return false
+	}
+	for k, n := 0, 1+r.Intn(4); k < n; k++ {
+		switch r.Intn(7) {
+		case 0, 1, 2:
+			out.Netpols = append(out.Netpols, g.Netpol(fresh("np", npUsed)))
+		case 3:
+			if len(out.Netpols) > 0 {
+				i := r.Intn(len(out.Netpols))
+				out.Netpols = append(out.Netpols[:i], out.Netpols[i+1:]...)
+			}
+		case 4:
+			if len(out.Workloads) > 1 {
+				i := r.Intn(len(out.Workloads))
+				out.Workloads = append(out.Workloads[:i], out.Workloads[i+1:]...)
+			}
+		case 5:
+			out.Workloads = append(out.Workloads, g.Workload(fresh("w", wlUsed)))
+		case 6:
+			if len(out.Namespaces) > 0 {
+				i := r.Intn(len(out.Namespaces))
+				if out.Namespaces[i].HasObject {
+					out.Namespaces[i].Labels = g.labels(NsKeys, NsVals, 2)
+				}
+			}
+		}
+	}
+	out.Normalize()
+	return out
 }
